@@ -347,3 +347,22 @@ pub fn mask_spec(maxw: i32, maxh: i32) -> BoxedStrategy<MaskSpec> {
         .prop_flat_map(|(w, h)| prop::collection::vec(byte_b(), (w * h) as usize..=(w * h) as usize).prop_map(move |data| MaskSpec { w, h, data }))
         .boxed()
 }
+
+/// quarter-grid polygon near a w x h surface (1-2 closed subpaths, 3-6 vertices), for exact coverage via raster4x4;
+/// `aligned` makes every vertex a whole pixel so that coverages are 0/255 only
+pub fn grid_poly(w: i32, h: i32, aligned: bool) -> BoxedStrategy<PathSpec> {
+    let step = if aligned { 4 } else { 1 };
+    let vx = move || (-8 / step..=(4 * w + 8) / step).prop_map(move |v| (v * step) as f32 / 4.0);
+    let vy = move || (-8 / step..=(4 * h + 8) / step).prop_map(move |v| (v * step) as f32 / 4.0);
+    let general = prop::collection::vec((vx(), vy()), 3..=6).prop_map(|pts| {
+        let mut ops = vec![POp::M(pts[0].0, pts[0].1)];
+        for p in &pts[1..] {
+            ops.push(POp::L(p.0, p.1));
+        }
+        ops.push(POp::Z);
+        ops
+    });
+    let rect = (vx(), vy(), vx(), vy()).prop_map(|(a, b, c, d)| vec![POp::M(a, b), POp::L(c, b), POp::L(c, d), POp::L(a, d), POp::Z]);
+    let sub = if aligned { prop_oneof![1 => general, 3 => rect].boxed() } else { prop_oneof![3 => general, 1 => rect].boxed() };
+    (prop::collection::vec(sub, 1..=2), any::<bool>()).prop_map(|(subs, evenodd)| PathSpec { ops: subs.concat(), evenodd }).boxed()
+}
